@@ -67,7 +67,8 @@ fn gen_blind(thorough: bool, rng: &mut Rng) -> Result<(), String> {
         }
     };
     for k in 0..n {
-        let name = rng.pick(&names).clone();
+        // the first two sessions use the definition with a second hidden non-schema attribute
+        let name = if k < 2 && names.contains(&"pqr_norev".to_string()) { "pqr_norev".to_string() } else { rng.pick(&names).clone() };
         let cd = pool.get(&name);
         let mut oracles: Vec<Value> = vec![];
         // link secret
@@ -89,7 +90,9 @@ fn gen_blind(thorough: bool, rng: &mut Rng) -> Result<(), String> {
         let mut hb = Issuer::new_credential_values_builder().map_err(e)?;
         let mut hidden: BTreeMap<String, String> = BTreeMap::new();
         for a in &cd.non_attrs {
-            let v = if a == "master_secret" { link.clone() } else { dec_of_hex(&rng.hex_bits(200)) };
+            // other hidden non-schema attributes are small in every other session: a predicate on them
+            // would be computable, so only the request check keeps them out of predicates
+            let v = if a == "master_secret" { link.clone() } else if k % 2 == 0 { format!("{}", rng.range(1, 100000)) } else { dec_of_hex(&rng.hex_bits(200)) };
             hb.add_dec_hidden(a, &v).map_err(e)?;
             hidden.insert(a.clone(), v);
         }
@@ -211,7 +214,8 @@ fn gen_blind(thorough: bool, rng: &mut Rng) -> Result<(), String> {
         // refusal to reveal / use in predicates a non-schema attribute
         for a in &cd.non_attrs {
             for (what, rq) in [("revealed", ReqSpec { revealed: vec![a.clone()], predicates: vec![] }),
-                               ("predicate", ReqSpec { revealed: vec![], predicates: vec![PredSpec { attr: a.clone(), ptype: "GE".into(), value: 0 }] })] {
+                               ("predicate", ReqSpec { revealed: vec![], predicates: vec![PredSpec { attr: a.clone(), ptype: "GE".into(), value: 0 }] }),
+                               ("predicate LE", ReqSpec { revealed: vec![], predicates: vec![PredSpec { attr: a.clone(), ptype: "LE".into(), value: i32::MAX }] })] {
                 let r = guard(|| {
                     let mut pb = Prover::new_proof_builder()?;
                     pb.add_sub_proof_request(&rq.build().map_err(|e| Error::new(ErrorKind::InvalidState, e))?, &cd.schema, &cd.non_schema, &sig, &all, &cd.pk, None, None)
